@@ -72,3 +72,18 @@ define_language! {
         Sym(Symbol),
     }
 }
+
+define_language! {
+    /// S1: Symbol is the ONLY unnamed payload type (no earlier variant accepts its texts), plus named operators with payloads
+    /// of the other bare payload types (C16: to_syntax / from_syntax round trip of payload values)
+    pub enum S1 {
+        Const(Symbol) = "const",
+        Tag(Symbol, AppliedId) = "tag",
+        I(i64) = "i",
+        U(u8) = "u",
+        Bo(bool) = "bo",
+        Chr(char) = "chr",
+        C() = "c",
+        Sym(Symbol),
+    }
+}
